@@ -308,8 +308,48 @@ package keeper
 //@   ensures forall a: str :: {$bal[a]} a != fromBech32(fromAddress) && a != fromBech32(toAddress) ==> $bal[a] == old($bal[a])
 //@   prop C09 C08 C17 C20
 //@
+//@ // ---- C07: the x/auth vesting schedule stays within the original vesting ----
+//@ // ratio of elapsed to total time as x/auth computes it (18 decimals, banker's rounding), for start < t < end
+//@ spec func elapsedRatio(st int, en int, tu int) int = chopRound(tquo((tu - st) * P * P * P, (en - st) * P))
+//@ lemma elapsedRatioBounds(st int, en int, tu int)
+//@   requires st < tu && tu < en
+//@   uses mulCancelLe((en - st) * P, tquo((tu - st) * P * P * P, (en - st) * P), P * P), chopRoundLe(tquo((tu - st) * P * P * P, (en - st) * P), P)
+//@   ensures 0 <= elapsedRatio(st, en, tu) && elapsedRatio(st, en, tu) <= P
+//@   prop C07
+//@ lemma vestedBounds(ov int, st int, en int, tu int)
+//@   requires ov >= 0 && st <= en
+//@   uses elapsedRatioBounds(st, en, tu), chopRoundLe(ov * P * elapsedRatio(st, en, tu), ov * P), chopRoundLe(chopRound(ov * P * elapsedRatio(st, en, tu)), ov)
+//@   ensures 0 <= cvaVested(ov, st, en, tu) && cvaVested(ov, st, en, tu) <= ov
+//@   prop C07
+//@ // what the split takes off the sender's original vesting for denomination amount u, original vesting ov, currently vesting vg:
+//@ // trunc(u*ov/vg) in 18-decimal arithmetic, exactly as the code computes it
+//@ spec func unlockDiff(u int, ov int, vg int) int = truncInt(chopRound(tquo(chopRound((u * P) * (ov * P)) * P * P, vg * P)))
+//@ lemma chopRoundExact(k int)
+//@   ensures chopRound(k * P) == k
+//@   reveal chopRound
+//@   prop C07
+//@ lemma unlockDiffBounds(u int, ov int, vg int)
+//@   requires 0 <= u && u <= vg && vg >= 1 && ov >= 0
+//@   uses chopRoundExact(u * ov * P), mulMono(ov * P * P * P, u, vg)
+//@   uses mulCancelLe(vg * P, tquo(u * ov * P * P * P, vg * P), ov * P * P), chopRoundLe(tquo(u * ov * P * P * P, vg * P), ov * P)
+//@   ensures 0 <= unlockDiff(u, ov, vg) && unlockDiff(u, ov, vg) <= ov
+//@   prop C07
+//@ lemma vestedBoundsCanary(ov int, st int, en int, tu int)
+//@   requires ov >= 1 && st < en
+//@   uses elapsedRatioBounds(st, en, tu), chopRoundLe(ov * P * elapsedRatio(st, en, tu), ov * P), chopRoundLe(chopRound(ov * P * elapsedRatio(st, en, tu)), ov)
+//@   ensures cvaVested(ov, st, en, tu) <= ov - 1
+//@   expect fail
+//@   prop C07
 //@ // the sender's own vesting account: only its OriginalVesting shrinks
+//@ // what x/auth guarantees for a stored continuous vesting account, within the magnitudes of the property (amounts up to 10^30)
+//@ pred validDenomsOf(c) = forall i: int :: {denomAt(c, i)} 0 <= i && i < len(c) ==> validDenom(denomAt(c, i))
+//@ pred cvaSane(a) = $accStart[a] <= $accEnd[a] && (forall d: str :: {$accOV[a][d]} {$accDV[a][d]} 0 <= $accOV[a][d] && $accOV[a][d] <= E30() && 0 <= $accDV[a][d] && $accDV[a][d] <= E30())
+//@ spec func E30() int = 1000000000000000000000000000000
 //@ func (k Keeper) UnlockUnbondedContinuousVestingAccountCoins(ctx, ownerAddress, amountToUnlock) (acc, err)
+//@   panic_requires cvaSane(ownerAddress) && timeOK($blockTime) && validDenomsOf(amountToUnlock)
+//@   // the schedule and split arithmetic is used through the lemmas below only: truncated division stays uninterpreted here
+//@   opaque tquo
+//@   uses forall d: str :: {$accOV[ownerAddress][d]} vestedBounds($accOV[ownerAddress][d], $accStart[ownerAddress], $accEnd[ownerAddress], fdiv($blockTime, 1000000000))
 //@   modifies $accTag, $accNum, $accSeq, $accPub, $accOV, $accDF, $accDV, $accStart, $accEnd
 //@   ensures otherAccountsUnchanged(ownerAddress)
 //@   ensures err != nil ==> allAccountsUnchanged()
@@ -319,8 +359,25 @@ package keeper
 //@     && $accDF[ownerAddress] == old($accDF[ownerAddress]) && $accDV[ownerAddress] == old($accDV[ownerAddress])
 //@     && (forall d: str :: {$accOV[ownerAddress][d]} $accOV[ownerAddress][d] <= old($accOV[ownerAddress][d]))
 //@     && acc.StartTime == $accStart[ownerAddress] && acc.BaseVestingAccount != nil && acc.BaseVestingAccount.EndTime == $accEnd[ownerAddress]
+//@   // C07 (mechanism): each unlocked denomination loses trunc(amount*OV/vesting) of its original vesting, or one unit more
+//@   // (rounding compensation); denominations that are not unlocked keep theirs
+//@   ensures [formula] err == nil ==> (forall d: str :: {$accOV[ownerAddress][d]} amountToUnlock[d] == 0 ==> $accOV[ownerAddress][d] == old($accOV[ownerAddress][d]))
+//@     && (forall k: int :: {denomAt(amountToUnlock, k)} 0 <= k && k < len(amountToUnlock) && amountToUnlock[denomAt(amountToUnlock, k)] > 0 ==>
+//@          unlockedBy(ownerAddress, denomAt(amountToUnlock, k), amountToUnlock[denomAt(amountToUnlock, k)], $accOV[ownerAddress][denomAt(amountToUnlock, k)]))
 //@   prop C09 C07 C20x
+//@ // vesting amount of denomination d of the stored account a before the call
+//@ pred vesting0(a, d) = old($accOV[a][d]) - cvaVested(old($accOV[a][d]), old($accStart[a]), old($accEnd[a]), fdiv($blockTime, 1000000000))
+//@ pred unlockedBy(a, d, u, ovNew) = ovNew == old($accOV[a][d]) - unlockDiff(u, old($accOV[a][d]), vesting0(a, d))
+//@     || ovNew == old($accOV[a][d]) - unlockDiff(u, old($accOV[a][d]), vesting0(a, d)) - 1
 //@ loop Keeper.UnlockUnbondedContinuousVestingAccountCoins#1
+//@   invariant 0 <= \i && \i <= len(amountToUnlock)
+//@   invariant forall d: str :: {vestingAcc.BaseVestingAccount.OriginalVesting[d]} amountToUnlock[d] == 0 ==> vestingAcc.BaseVestingAccount.OriginalVesting[d] == $accOV[ownerAddress][d]
+//@   invariant forall k: int :: {denomAt(amountToUnlock, k)} \i <= k && k < len(amountToUnlock) ==> vestingAcc.BaseVestingAccount.OriginalVesting[denomAt(amountToUnlock, k)] == $accOV[ownerAddress][denomAt(amountToUnlock, k)]
+//@   invariant forall k: int :: {denomAt(amountToUnlock, k)} 0 <= k && k < \i && amountToUnlock[denomAt(amountToUnlock, k)] > 0 ==>
+//@          unlockedBy(ownerAddress, denomAt(amountToUnlock, k), amountToUnlock[denomAt(amountToUnlock, k)], vestingAcc.BaseVestingAccount.OriginalVesting[denomAt(amountToUnlock, k)])
+//@   invariant forall d: str :: {vestingAcc.BaseVestingAccount.OriginalVesting[d]} cvaSane(ownerAddress) ==> 0 <= vestingAcc.BaseVestingAccount.OriginalVesting[d]
+//@   uses let d = denomAt(amountToUnlock, \i) in unlockDiffBounds(amountToUnlock[d], $accOV[ownerAddress][d], $accOV[ownerAddress][d] - cvaVested($accOV[ownerAddress][d], $accStart[ownerAddress], $accEnd[ownerAddress], fdiv($blockTime, 1000000000)))
+//@   uses forall v: int :: {cvaVested(v, $accStart[ownerAddress], $accEnd[ownerAddress], fdiv($blockTime, 1000000000))} vestedBounds(v, $accStart[ownerAddress], $accEnd[ownerAddress], fdiv($blockTime, 1000000000))
 //@   invariant vestingAcc != nil && vestingAcc.BaseVestingAccount != nil && vestingAcc.BaseVestingAccount.BaseAccount != nil
 //@   invariant vestingAcc.StartTime == $accStart[ownerAddress] && vestingAcc.BaseVestingAccount.EndTime == $accEnd[ownerAddress]
 //@   invariant vestingAcc.BaseVestingAccount.DelegatedFree == $accDF[ownerAddress] && vestingAcc.BaseVestingAccount.DelegatedVesting == $accDV[ownerAddress]
